@@ -7,7 +7,7 @@ CONSTANTS
   MaxOps = 6
   EmitMode = "class"
 VIEW View
-INVARIANTS TypeOK NoOrphanKF
+INVARIANTS TypeOK NoOrphan
 PROPERTIES Ref_Stored Ref_Order Ref_Stale Ref_OnlyNow Ref_Removed
 ACTION_CONSTRAINT Emit
 CHECK_DEADLOCK FALSE
